@@ -165,4 +165,19 @@ theorem C01.propose_volume_preserving_boxed_diag (lb ub : ι → Option ℝ) (w 
       (((volume : Measure (Vec ι)).prod volume).restrict (openBox lb ub)) :=
   trajBox_mp lb ub w hwf g hg (schedule c i h n)
 
+/-- **C01, reversibility with reflections for almost every start**: the set of starts excluded by the
+    hypothesis of `propose_reversible_boxed_diag_partial` (some sub-step begins exactly on a wall) is a null
+    set of the box - every integrator, `n`, `h`, any dimension, Unit / Diagonal metric, any box -/
+theorem C01.propose_reversible_boxed_diag_ae (lb ub : ι → Option ℝ) (w : ι → ℝ) (hwf : C01.WellFormed lb ub)
+    (g : Vec ι → Vec ι) (hg : Measurable g) (c : Coeffs ℝ) (i : Integrator) (h : ℝ) (n : Nat) :
+    ∀ᵐ x ∂(((volume : Measure (Vec ι)).prod volume).restrict (openBox lb ub)),
+      runOps (C01.diagVel w) g (C01.boxRefl lb ub) (schedule c i h n)
+        (C01.flip (runOps (C01.diagVel w) g (C01.boxRefl lb ub) (schedule c i h n) (ofProd x))) = C01.flip (ofProd x) := by
+  filter_upwards [pathGoodN_ae lb ub w hwf g hg (schedule c i h n)] with x hx
+  exact Split.palindrome_reversible_on _ C01.flip (fun s _ => toProd s ∈ openBox lb ub)
+    (fun o s hs => C01.boxed_step_reversible _ _ hwf w g o s (by
+      cases o with
+      | drift c => exact hs
+      | kick c => trivial)) _ (C01.schedule_palindrome c i h n) (ofProd x) hx
+
 end HmcVerif
